@@ -190,7 +190,7 @@ func (c *Ctx) ctxRecords(fn *ssa.Function) []ctxRecord {
 // slicing, indexing of vectors and strings.SplitN.
 func tokenProvenance(v ssa.Value) []ssa.Value {
 	return ir.Roots(v, func(call *ssa.Call) []ssa.Value {
-		if f := ir.Static(call); f != nil && ir.IsStdFunc(f, "strings", "SplitN") {
+		if f := ir.Static(call); f != nil && splitsToken(f) {
 			return []ssa.Value{call.Call.Args[0]}
 		}
 		return nil
@@ -1667,8 +1667,10 @@ func usesOtherElement(v ssa.Value, args, idx *ssa.Parameter) bool {
 			for _, e := range x.Edges {
 				walk(e)
 			}
+		case *ssa.Extract:
+			walk(x.Tuple)
 		case *ssa.Call:
-			if f := ir.Static(x); f != nil && ir.IsStdFunc(f, "strings", "SplitN") {
+			if f := ir.Static(x); f != nil && splitsToken(f) {
 				walk(x.Call.Args[0])
 			}
 		}
@@ -1904,8 +1906,10 @@ func mat8(c *Ctx) {
 						for _, e := range x.Edges {
 							walk(e, seen)
 						}
+					case *ssa.Extract:
+						walk(x.Tuple, seen)
 					case *ssa.Call:
-						if f := ir.Static(x); f != nil && ir.IsStdFunc(f, "strings", "SplitN") {
+						if f := ir.Static(x); f != nil && splitsToken(f) {
 							walk(x.Call.Args[0], seen)
 						}
 					}
@@ -2747,4 +2751,9 @@ func (c *Ctx) proveGE0(fn *ssa.Function, at ssa.Instruction, goal lin, depth int
 		}
 	}
 	return n > 0
+}
+
+// splitsToken: strings.SplitN and strings.Cut hand back sub-strings of their first argument.
+func splitsToken(f *ssa.Function) bool {
+	return ir.IsStdFunc(f, "strings", "SplitN") || ir.IsStdFunc(f, "strings", "Cut")
 }
